@@ -407,6 +407,10 @@ func init() {
 	R("Hook", func(e *Engine, fr *frame, a []Value) Value {
 		fn := a[1]
 		if i, ok := fn.(Iface); ok {
+			if i.T == nil { // Hook(name, nil) removes the hook
+				delete(e.hooks, strVal(a[0]))
+				return nil
+			}
 			fn = i.V
 		}
 		e.hooks[strVal(a[0])] = fn
